@@ -52,7 +52,7 @@ P = {
     "C15": ("shadow-q shadow-iv native", "exact shadow execution on exact arcs; interval shadow execution on general pairs and ladders; native f64 monitor inside the tolerance zones",
             "between_vectors (Quaternion, Basis3, Basis2) and from_arc: r(a)=b, angle, axis, shorter way, 2-D direction, opposite vectors and fallback axis, exactly h on exact arcs.",
             "Inside the stated zones only closeness is demanded."),
-    "C16": ("native miri", "value-exact native monitors over all element types and views; exhaustive 550-name swizzle table; Miri (Tree Borrows) over every unsafe view",
+    "C16": ("native miri", "value-exact native monitors over all element types and views; exhaustive 550-name swizzle table; Miri (Tree Borrows) over every unsafe view; thorough: valgrind memcheck + AddressSanitizer on the same workload",
             "Every conversion/view/index form on distinct tags for 12 primitives and non-numeric element types, writes through each mutable view read through all others, panic events for out-of-range indices, all 550 swizzles by an independent generator, and the Miri workload.",
             "Default struct/tuple layout only; Stacked Borrows advisory."),
     "C17": ("native", "bit-equality of operator spellings on native types; scalar-left component model for 12 primitives; random straight-line programs in two spellings",
@@ -76,7 +76,7 @@ ENGINES = [
      "serves_properties": [k for k, v in P.items() if "shadow-iv" in v[0]]},
     {"name": "native", "path": "harness/src/props", "kind_free_text": "monitors on the real primitive scalar types: value-exact component models, bitwise spelling equality, panic events, serde data-model recorder, and accuracy monitors (f32-vs-f64 twin runs of the same generic code, known-exact-answer inputs) with tolerances >= 100x the observed rounding error",
      "serves_properties": [k for k, v in P.items() if "native" in v[0]]},
-    {"name": "miri", "path": "miri/src/main.rs", "kind_free_text": "cargo +nightly miri run (-Zmiri-tree-borrows gate, Stacked Borrows advisory) over every unsafe view / swap / get_unchecked",
+    {"name": "miri", "path": "miri/src/main.rs", "kind_free_text": "cargo +nightly miri run (-Zmiri-tree-borrows gate, Stacked Borrows advisory) over every unsafe view / swap / get_unchecked; thorough tier: the same workload natively under valgrind memcheck and AddressSanitizer; std unsafe-precondition checks (debug assertions) in every native monitor",
      "serves_properties": [k for k, v in P.items() if "miri" in v[0]]},
 ]
 
